@@ -8738,38 +8738,44 @@ let page_completions_simple u cfg cands =
     Nat.min (cols cfg)
       (add (fold_left Nat.max (map (layout_w u) cands) O) (S (S O)))
   in
-  let num_cols = Nat.div (cols cfg) max_width in
-  let nbc = length cands in
-  let num_rows = Nat.div (sub (add nbc num_cols) (S O)) num_cols in
-  let row_text = fun row0 ->
-    concat
-      (map (fun col ->
-        let i = add (mul col num_rows) row0 in
-        (match nth_error cands i with
-         | Some c ->
-           app c
-             (if Nat.ltb (add (mul (add col (S O)) num_rows) row0) nbc
-              then repeat (Npos (XO (XO (XO (XO (XO XH))))))
-                     (sub max_width (layout_w u c))
-              else [])
-         | None -> [])) (seq O num_cols))
-  in
-  ebind
-    (let rec rows k row0 =
-       match k with
-       | O -> eret ()
-       | S k' ->
-         ebind (write ((Npos (XO (XI (XO XH)))) :: [])) (fun _ ->
-           ebind (write (row_text row0)) (fun _ -> rows k' (S row0)))
-     in rows num_rows O) (fun _ ->
-    ebind (write ((Npos (XO (XI (XO XH)))) :: [])) (fun _ ->
-      ebind eget (fun s ->
-        let lay = s.e_layout in
-        ebind
-          (set_layout { l_prompt_size = lay.l_prompt_size; l_default_prompt =
-            lay.l_default_prompt; l_cursor = { p_col = lay.l_cursor.p_col;
-            p_row = O }; l_end = { p_col = lay.l_end.p_col; p_row = O } })
-          (fun _ -> ebind (refresh_line u cfg) (fun _ -> eret None)))))
+  if Nat.eqb max_width O
+  then epanic
+  else let num_cols = Nat.div (cols cfg) max_width in
+       if Nat.eqb num_cols O
+       then epanic
+       else let nbc = length cands in
+            let num_rows = Nat.div (sub (add nbc num_cols) (S O)) num_cols in
+            let row_text = fun row0 ->
+              concat
+                (map (fun col ->
+                  let i = add (mul col num_rows) row0 in
+                  (match nth_error cands i with
+                   | Some c ->
+                     app c
+                       (if Nat.ltb (add (mul (add col (S O)) num_rows) row0)
+                             nbc
+                        then repeat (Npos (XO (XO (XO (XO (XO XH))))))
+                               (sub max_width (layout_w u c))
+                        else [])
+                   | None -> [])) (seq O num_cols))
+            in
+            ebind
+              (let rec rows k row0 =
+                 match k with
+                 | O -> eret ()
+                 | S k' ->
+                   ebind (write ((Npos (XO (XI (XO XH)))) :: [])) (fun _ ->
+                     ebind (write (row_text row0)) (fun _ -> rows k' (S row0)))
+               in rows num_rows O) (fun _ ->
+              ebind (write ((Npos (XO (XI (XO XH)))) :: [])) (fun _ ->
+                ebind eget (fun s ->
+                  let lay = s.e_layout in
+                  ebind
+                    (set_layout { l_prompt_size = lay.l_prompt_size;
+                      l_default_prompt = lay.l_default_prompt; l_cursor =
+                      { p_col = lay.l_cursor.p_col; p_row = O }; l_end =
+                      { p_col = lay.l_end.p_col; p_row = O } }) (fun _ ->
+                    ebind (refresh_line u cfg) (fun _ -> eret None)))))
 
 (** val wait_yn : uData -> config -> nat -> cmd -> cmd e **)
 
